@@ -57,9 +57,16 @@ def cfg_sql(tier):
     return Cfg(engines=(0,), max_ops=8 if tier == "quick" else 12, p_binary=0.3, avoid=frozenset(["D9", "D10", "D11"]), prelude=0.2)
 
 
+def cfg_iter(tier):
+    """Two iteration engines only: every relation of the history can be executed directly (transfers between iteration
+    engines are passed through by execute())."""
+    return Cfg(engines=(1, 2), binary=("chain",), markers=("mat", "xfer", "xfer"), max_ops=8 if tier == "quick" else 12, p_binary=0.15, iter_variants=("plain", "plain", "custom", "mapping"))
+
+
 @st.composite
 def st_case(draw, tier):
-    universe, leaves, prog = draw(st_program(cfg_sql(tier) if draw(st.integers(0, 2)) == 0 else cfg(tier)))
+    which = draw(st.integers(0, 3))
+    universe, leaves, prog = draw(st_program(cfg_sql(tier) if which == 0 else cfg_iter(tier) if which == 1 else cfg(tier)))
     n = len(list(walk(prog)))
     actions = [k for k in KINDS if k != "build"]
     steps = []
